@@ -282,7 +282,7 @@ func cmdCheck(o options, prop string) int {
 			if it.sweep && it.fi.Spec == nil {
 				// sweep: safety classes only
 				switch ob.Class {
-				case "panic", "chan-close-once", "chan-send-open", "lock-released", "lock-order", "vacuity":
+				case "panic", "vacuity":
 				default:
 					continue
 				}
@@ -304,6 +304,9 @@ func cmdCheck(o options, prop string) int {
 		} else {
 			claimed = append(claimed, ob)
 		}
+	}
+	for _, ob := range claimed {
+		addReplayTerms(ob)
 	}
 	results := dischargeAll(claimed, o.timeout, o.tier == "thorough", o.par)
 	var recs []obRecord
@@ -586,6 +589,9 @@ func reportDebug(o options, mode string, r *FuncResult, obre *regexp.Regexp) {
 		}
 		return
 	}
+	for _, ob := range obs {
+		addReplayTerms(ob)
+	}
 	res := dischargeAll(obs, o.timeout, o.tier == "thorough", o.par)
 	for i, ob := range obs {
 		s := res[i]
@@ -602,6 +608,10 @@ func reportDebug(o options, mode string, r *FuncResult, obre *regexp.Regexp) {
 			for _, k := range sortedKeys(s.Model) {
 				fmt.Printf("        %s = %s\n", k, s.Model[k])
 			}
+		}
+		if mark == "FAIL" && s.Model != nil && os.Getenv("GOCV_REPLAY") != "" {
+			ok, out := replayModel(o, ob.ctx.W, ob, s.Model)
+			fmt.Printf("        replay: failed-on-real-code=%v\n%s\n", ok, indent(out))
 		}
 		if mark == "FAIL" && s.Status == "error" {
 			fmt.Println("        " + truncate(s.Output, 600))
@@ -624,4 +634,8 @@ func cmdList(o options) int {
 		fmt.Println(mark, key)
 	}
 	return 0
+}
+
+func indent(s string) string {
+	return "          " + strings.ReplaceAll(strings.TrimSpace(s), "\n", "\n          ")
 }
